@@ -35,7 +35,20 @@ def cases(draw, tier):
                              reuse_const=True, share_buffers=True, dedup=True,
                              dim_choices=[2, 4], reuse_odds=1, share_odds=1))
   names = engine.op_out_names(mspec)
-  if draw(st.integers(0, 2)) == 0:
+  groups = _sharer_groups(mspec)
+  if groups and draw(st.integers(0, 2)):
+    # give the consumers of one shared constant individually drawn treatments
+    import re as _re
+    grp = draw(st.sampled_from(groups))
+    rules = []
+    for out_name in grp:
+      algo, c = draw(st.sampled_from(R.COMMON_CFGS + [(R.NOQ, R.DEFAULT)]))
+      rules.append(R.rule(_re.escape(out_name), '*', algo, dict(c)))
+    if draw(st.booleans()):
+      algo, c = draw(st.sampled_from(R.COMMON_CFGS))
+      rules.insert(0, R.rule('.*', '*', algo, dict(c)))
+    recipe = {'kind': 'rules', 'rules': rules}
+  elif draw(st.integers(0, 2)) == 0:
     recipe = {'kind': 'shipped', 'name': draw(st.sampled_from(engine.SHIPPED_NAMES))}
   else:
     recipe = {'kind': 'rules', 'rules': draw(R.rules_for(
@@ -43,6 +56,20 @@ def cases(draw, tier):
         allow_skip=False))}
   return {'model': mspec, 'recipe': recipe, 'calib_seeds': [draw(st.integers(0, 99))],
           'input_seed': 0}
+
+
+def _sharer_groups(mspec):
+  """Lists of output names of the ops consuming one shared constant (tensor or buffer)."""
+  by_const = {}
+  for si, sg in enumerate(mspec['subgraphs']):
+    for n in sg['nodes']:
+      for t in set(x for x in n['in'] if x >= 0):
+        tt = sg['tensors'][t]
+        if tt['kind'] != 'const' or tt['dtype'] != 'f32':
+          continue
+        key = tuple(tt['share']) if tt.get('share') is not None else (si, t)
+        by_const.setdefault(key, []).append(sg['tensors'][n['out'][0]]['name'])
+  return [sorted(set(v)) for v in by_const.values() if len(set(v)) >= 2]
 
 
 def check_case(case):
